@@ -5,6 +5,7 @@ import PhysisModel.Proofs.MdlHistory2
 import PhysisModel.Proofs.MdlRelayoutLemmas
 import PhysisModel.Proofs.MdlRelayoutWF
 import PhysisModel.Proofs.MdlFlags
+import PhysisModel.Proofs.MdlReturns
 /-!
 # C07 — parse ∘ write ∘ edits ∘ parse reports the new geometry
 
@@ -228,5 +229,16 @@ theorem edit_then_parse (a : AbstractModel) (h : WF a = true) (hcan : Canonical 
       (unusedEmpty_initial a h hcan)
   exact edit_then_parse_of_rep a' hsm (parsedOf a v0) mE ces (cedits_ne_nil es a ces hne hces)
     (rep_rangesDisjoint h hrep0) hE hrep (wf_relayout a' h' hlen') hcan' hne' v hv hun
+
+/-- under `editsFit` (every intermediate state is small enough for `update_headers`, every shape-mesh
+count can be incremented) the edit calls on the parsed model return -/
+theorem edits_return_initial (a : AbstractModel) (h : WF a = true) (hcan : Canonical a = true)
+    (v0 : View) (hv0 : view a = some v0) (es : List AEdit) (hes : editsOk2 a es = true)
+    (hfit : editsFit a es = true) (a' : AbstractModel) (ha' : applyEdits a es = some a')
+    (ces : List Edit) (hces : cedits a es = some ces) :
+    ∃ mE, ces.foldlM Mdl.applyEdit (parsedOf a v0) = .ok mE := by
+  have hrep0 : Rep a (parsedOf a v0) := rep_initial a h v0 hv0
+  exact edits_return es a a' (parsedOf a v0) ces (small_of_wf a h) (wf_facts a h).lods3 hrep0
+    (starts_initial a h hcan v0 hv0) (rep_rangesDisjoint h hrep0) hes hfit ha' hces
 
 end Physis.Mdl
